@@ -366,3 +366,59 @@ func (f *vFakeOAuth2) attach(w *vWorld) {
 func newU2FChallenge() (*u2f.Challenge, error) { return u2f.NewChallenge(u2fAppID, u2fTrustedFacets) }
 
 func vB64Dec(s string) ([]byte, error) { return base64.RawURLEncoding.DecodeString(s) }
+
+// vResetTOTPThrottleKeepReplay forgets only the 2 s spacing / failure memory
+// (a few seconds pass); the replay memory of the profile is kept.
+func (w *vWorld) vResetTOTPThrottleKeepReplay(user string) {
+	w.state.totpLocalTateLimitMutex.Lock()
+	delete(w.state.totpLocalRateLimit, user)
+	w.state.totpLocalTateLimitMutex.Unlock()
+}
+
+func (f *vFakeVIP) txIDs() map[string]bool {
+	f.Lock()
+	defer f.Unlock()
+	out := map[string]bool{}
+	for id := range f.tx {
+		out[id] = true
+	}
+	return out
+}
+
+// approveOnly approves exactly the listed transactions.
+func (f *vFakeVIP) approveOnly(ids map[string]bool) {
+	f.Lock()
+	defer f.Unlock()
+	for id, tx := range f.tx {
+		if ids[id] {
+			tx.Approved = true
+		}
+	}
+}
+
+// webauthnAssertion answers a webauthn (navigator.credentials.get) challenge
+// with this U2F token, the way a browser presents a legacy U2F credential
+// (rpIdHash = hash of the AppID, see the appid extension).
+func (tok *vSoftU2F) webauthnAssertion(challenge, origin, appID string) []byte {
+	tok.counter++
+	clientData, _ := json.Marshal(map[string]interface{}{"type": "webauthn.get", "challenge": challenge, "origin": origin})
+	appParam := sha256.Sum256([]byte(appID))
+	var authData bytes.Buffer
+	authData.Write(appParam[:])
+	authData.WriteByte(0x01)
+	var ctr [4]byte
+	binary.BigEndian.PutUint32(ctr[:], tok.counter)
+	authData.Write(ctr[:])
+	cdHash := sha256.Sum256(clientData)
+	signed := append(append([]byte{}, authData.Bytes()...), cdHash[:]...)
+	digest := sha256.Sum256(signed)
+	sig, err := ecdsa.SignASN1(rand.Reader, tok.key, digest[:])
+	if err != nil {
+		panic(err)
+	}
+	body, _ := json.Marshal(map[string]interface{}{
+		"id": vB64(tok.keyHandle), "rawId": vB64(tok.keyHandle), "type": "public-key",
+		"response": map[string]string{"clientDataJSON": vB64(clientData), "authenticatorData": vB64(authData.Bytes()), "signature": vB64(sig), "userHandle": ""},
+	})
+	return body
+}
